@@ -368,7 +368,7 @@ func (f *MemFile) ReadDir(n int) (entries []fs.DirEntry, err error) {
 
 	f.dirIndex = end
 
-	return f.dirEntries[start:end], nil
+	return f.dirEntries[start:end:end], nil
 }
 
 // Readdirnames reads and returns a slice of names from the directory f.
@@ -445,7 +445,7 @@ func (f *MemFile) Readdirnames(n int) (names []string, err error) {
 
 	f.dirIndex = end
 
-	return f.dirNames[start:end], nil
+	return f.dirNames[start:end:end], nil
 }
 
 // Seek sets the offset for the next Read or Write on file to offset, interpreted
